@@ -946,7 +946,8 @@ def model_file_stage(ctx: vlib.Ctx, by_name: dict[str, dict[str, Any]]) -> None:
             continue
         cand = sorted(((m, bytes.fromhex(d["datafile_hex"])) for m, d in r["modules"].items() if "datafile_hex" in d), key=lambda x: len(x[1]))
         if job.startswith("prog:"):
-            files += [c for c in cand if not any(c[0] == f[0] for f in files)]
+            own = {rel[:-3].replace("/", ".").removesuffix(".__init__").split(".")[0] for rel in PROGRAMS[job[5:]]}
+            files += [c for c in cand if c[0].split(".")[0] in own and not any(c[0] == f[0] for f in files)]
         else:
             files += [c for c in cand if not any(c[0] == f[0] for f in files)][:ctx.n(8, 25)]
     exprs = [f"let data := {chunked(b)} in match read_file json_read 200 data with Some (fs, []) => match write_file json_write 200 fs with "
